@@ -76,6 +76,15 @@ Theorem C02_assign_correct : ∀ k st lv e st',
   ∀ v, consistent st'.1 v → v lv = sem_cond v (v (k_tx k)) e.
 Proof. exact assign_correct. Qed.
 Print Assumptions C02_assign_correct.
+(* the composition principle for the item fold: an assignment step refines on the reserved names *)
+Theorem C02_assign_refines : ∀ k st lv e st',
+  c_assign k st (lv, e) = Ok st' →
+  gst k st → list_to_set (ids_cond e) ⊆ k_rsv k →
+  lv ∉ [k_t0 k; k_t1 k; k_tx k] → lv ∈ k_rsv k →
+  (∀ i, st.1 !! lv = Some i → n_fi i = ∅ ∧ is_free i = true) →
+  ∀ v, consistent st'.1 v → ∃ v1, consistent st.1 v1 ∧ (∀ s, s ∈ k_rsv k → v1 s = v s) ∧ v1 (k_tx k) = v (k_tx k).
+Proof. exact assign_refines. Qed.
+Print Assumptions C02_assign_refines.
 Theorem C02_result_cond : ∀ k e st st' r, c_cond k st e = Ok (st', r) → gst k st → list_to_set (ids_cond e) ⊆ k_rsv k →
   (r ∈ k_rsv k ∨ r ∈ dom st'.1) ∧ (r ∈ st'.2 → st.1 !! r = None ∧ topgate st'.1 r).
 Proof. exact result_cond. Qed.
